@@ -390,3 +390,50 @@ Proof.
   split; [flags; reflexivity|]. split; [flags; reflexivity|]. split; [flags; reflexivity|]. split; [reflexivity|].
   intros i Hi N. unfold set_v, set_c, set_z, set_n. rewrite !R_setf_other by lia. reflexivity.
 Qed.
+
+(* ---- memory destinations (word size, destination in RAM) ---- *)
+From Dmd Require Import Proofs.BusProofs Proofs.MachKit Proofs.OperandProofs.
+
+Definition memory_mode (md : addrmode) : Prop :=
+  match md with MRegister | MPosLit | MNegLit | MWordImm | MHalfImm | MByteImm => False | _ => True end.
+
+Lemma alu_std_mem_word_final ir f dst a m x y :
+  read_op ir 0 m = Ok x m -> read_op ir 1 m = Ok y m ->
+  memory_mode (omode (get_op ir dst)) -> effective_address ir dst m = Ok a m ->
+  data_type (get_op ir dst) = DWord -> otype (get_op ir dst) = DWord ->
+  bus_wf (mbus m) -> in_ram_w a ->
+  let res := f x y in
+  exists m', alu_std ir f dst m = Ok (ilen ir) m'
+    /\ ldw m' a = w32 res
+    /\ flag F_N m' = Z.testbit res 31 /\ flag F_Z m' = (res =? 0) /\ flag F_C m' = false /\ flag F_V m' = false
+    /\ (forall i, 0 <= i <= 15 -> i <> 11 -> R m' i = R m i)
+    /\ (forall b, RAMB <= b -> (b < a \/ a + 4 <= b) -> ramb m' b = ramb m b).
+Proof.
+  intros R0 R1 Hmode He Hdt Hot W Ha res. unfold alu_std. rewrite R0. cbn [bind]. rewrite R1. cbn [bind].
+  rewrite (write_memory_size ir dst (f x y) m a m Hmode He). rewrite Hdt.
+  rewrite wr_word_ram by assumption. cbn [bind]. eexists. split; [reflexivity|].
+  unfold set_nz_flags, set_v_flag_op. rewrite Hot. rewrite bset_31. fold res.
+  pose proof Ha as [A1 [A2 A3]].
+  split; [unfold set_v, set_c, set_z, set_n; rewrite !ldw_setf; apply ldw_stw_same; lia|].
+  split; [flags; reflexivity|]. split; [flags; reflexivity|]. split; [flags; reflexivity|]. split; [flags; reflexivity|].
+  split.
+  - intros i Hi N. unfold set_v, set_c, set_z, set_n. rewrite !R_setf_other by lia. apply R_stw.
+  - intros b Hb Hd. unfold set_v, set_c, set_z, set_n, ramb. cbn [mbus setf setPSW setR with_regs].
+    fold (ramb (stw m a res) b). apply ramb_stw_other; lia.
+Qed.
+
+Theorem logic_mul_mem_word_final ir m f dst a x y :
+  std_arm (iopcode ir) = Some (f, dst) -> read_op ir 0 m = Ok x m -> read_op ir 1 m = Ok y m ->
+  memory_mode (omode (get_op ir dst)) -> effective_address ir dst m = Ok a m ->
+  data_type (get_op ir dst) = DWord -> otype (get_op ir dst) = DWord ->
+  bus_wf (mbus m) -> in_ram_w a ->
+  let res := f x y in
+  exists m', exec ir m = Ok (ilen ir) m'
+    /\ ldw m' a = w32 res
+    /\ flag F_N m' = Z.testbit res 31 /\ flag F_Z m' = (res =? 0) /\ flag F_C m' = false /\ flag F_V m' = false
+    /\ (forall i, 0 <= i <= 15 -> i <> 11 -> R m' i = R m i)
+    /\ (forall b, RAMB <= b -> (b < a \/ a + 4 <= b) -> ramb m' b = ramb m b).
+Proof.
+  intros Ha R0 R1 Hm He Hdt Hot W Hr res. rewrite (std_arm_exec ir m f dst Ha).
+  exact (alu_std_mem_word_final ir f dst a m x y R0 R1 Hm He Hdt Hot W Hr).
+Qed.
